@@ -43,7 +43,7 @@ pub struct Scn {
 pub fn on_fresh_thread<R: Send>(f: impl FnOnce() -> R + Send) -> R {
     std::thread::scope(|s| {
         std::thread::Builder::new()
-            .stack_size(16 << 20)
+            .stack_size(32 << 20)
             .spawn_scoped(s, f)
             .expect("spawn thread")
             .join()
